@@ -321,13 +321,18 @@ impl Expression for Op {
 
             // ... / ...
             Div => {
-                let td = TypeDef::float();
+                // Both operands are always evaluated: keep their effects on the type state,
+                // their fallibility and their `return` kinds.
+                let rhs_value = self.rhs.resolve_constant(&state);
+                let rhs_def = self.rhs.apply_type_info(&mut state);
+                let td = lhs_def.clone().union(rhs_def).with_kind(K::float());
 
-                // Division is infallible if the rhs is a literal normal float or integer.
-                match self.rhs.resolve_constant(&state) {
+                // The division itself is infallible if the rhs is a literal normal float or
+                // integer.
+                match rhs_value {
                     Some(value) if lhs_def.is_float() || lhs_def.is_integer() => match value {
-                        Value::Float(v) if v.is_normal() => td.infallible(),
-                        Value::Integer(v) if v != 0 => td.infallible(),
+                        Value::Float(v) if v.is_normal() => td,
+                        Value::Integer(v) if v != 0 => td,
                         _ => td.fallible(),
                     },
                     _ => td.fallible(),
